@@ -160,8 +160,8 @@ def _prep_spec_dir(d, cfg_name, overrides, extra_files=None):
         shutil.copy(src, os.path.join(d, dst))
 
 
-def tlc_popen(d, module, workers, extra_args=None, stdout=None):
-    cmd = ["java", "-XX:+UseParallelGC", "-Xss64m", "-cp",
+def tlc_popen(d, module, workers, extra_args=None, stdout=None, jvm=None):
+    cmd = ["java", "-XX:+UseParallelGC", "-Xss64m"] + (jvm or []) + ["-cp",
            "/opt/veriftools/tla/tla2tools.jar:/opt/veriftools/tla/CommunityModules-deps.jar",
            "tlc2.TLC", "-workers", str(workers), "-metadir", os.path.join(d, "meta"),
            "-config", "run.cfg"] + (extra_args or []) + [module + ".tla"]
@@ -251,49 +251,85 @@ def tlc_gen(ctx, module, cfg_name, overrides=None, workers=NCPU, timeout=1800, n
     return r
 
 
-def tlc_validate(ctx, module, cfg_name, trace_files, trace_name, overrides=None, timeout=1800, jobs=NCPU, name=None):
-    """(V) validate recorded traces: one single-worker JVM per shard file. Returns list of REJECT tuples."""
+def tlc_validate(ctx, module, cfg_name, trace_files, trace_name, overrides=None, timeout=1800, jobs=NCPU, name=None,
+                 chunk_bytes=3 << 20):
+    """(V) validate recorded traces: single-worker JVMs (at most `jobs` at a time, bounded heap) over chunks of the
+    recorded cases. Returns list of REJECT tuples."""
     files = [f for f in trace_files if os.path.getsize(f) > 0]
-    # merge into at most `jobs` files
-    groups = [files[i::jobs] for i in range(min(jobs, max(1, len(files))))]
-    procs = []
     base = ctx.sub(name or ("val-" + module))
-    total = 0
-    for gi, g in enumerate(groups):
-        if not g:
-            continue
-        d = os.path.join(base, "j%d" % gi)
-        os.makedirs(d)
-        _prep_spec_dir(d, cfg_name, overrides)
-        n = 0
-        with open(os.path.join(d, trace_name), "w") as out:
-            for f in g:
-                with open(f) as fin:
-                    for line in fin:
-                        out.write(line)
-                        n += 1
-        total += n
-        p, cmd = tlc_popen(d, module, 1)
-        procs.append((p, d, n))
-    ctx.cmds.append("tlc -workers 1 -config cfg/%s %s.tla  (x%d JVMs over %d recorded cases)" % (cfg_name, module, len(procs), total))
+    # split the recorded cases into chunks: at least `jobs` of them (parallelism), none bigger than chunk_bytes (heap)
+    total_bytes = sum(os.path.getsize(f) for f in files)
+    per = max(1, min(chunk_bytes, total_bytes // jobs + 1))
+    chunks, cur, cur_n, cur_b, total = [], None, 0, 0, 0
+
+    def close():
+        nonlocal cur, cur_n, cur_b
+        if cur is not None:
+            cur[1].close()
+            chunks.append((cur[0], cur_n))
+        cur, cur_n, cur_b = None, 0, 0
+
+    for f in files:
+        with open(f) as fin:
+            for line in fin:
+                if cur is None:
+                    d = os.path.join(base, "j%d" % len(chunks))
+                    os.makedirs(d)
+                    _prep_spec_dir(d, cfg_name, overrides)
+                    cur = (d, open(os.path.join(d, trace_name), "w"))
+                cur[1].write(line)
+                cur_n += 1
+                cur_b += len(line)
+                total += 1
+                if cur_b >= per:
+                    close()
+    close()
+    xmx = "-Xmx%dm" % max(1536, min(8192, 44000 // max(1, min(jobs, len(chunks)))))
+    ctx.cmds.append("tlc -workers 1 -config cfg/%s %s.tla  (x%d JVMs, %d at a time, over %d recorded cases)" % (cfg_name, module, len(chunks), jobs, total))
     rejects = []
     deadline = time.time() + timeout
-    for p, d, n in procs:
-        try:
-            out, _ = p.communicate(timeout=max(1, deadline - time.time()))
-        except subprocess.TimeoutExpired:
-            for q, _, _ in procs:
+    pending = list(chunks)
+    running = []
+
+    def killall():
+        for q, _, _ in running:
+            try:
                 q.kill()
+            except Exception:
+                pass
+
+    import tempfile
+    while pending or running:
+        while pending and len(running) < jobs:
+            d, n = pending.pop(0)
+            of = open(os.path.join(d, "tlc.out"), "w+")
+            p, cmd = tlc_popen(d, module, 1, stdout=of, jvm=[xmx])
+            running.append((p, d, of))
+        still = []
+        for p, d, of in running:
+            if p.poll() is None:
+                still.append((p, d, of))
+                continue
+            of.seek(0)
+            out = of.read()
+            of.close()
+            r = _tlc_summary(out)
+            if not r["ok"]:
+                running = still + [x for x in running if x[0] is not p and x not in still]
+                killall()
+                errs = "\n".join(l for l in out.splitlines() if re.search(r"Error|Exception|error:|OutOfMemory|StackOverflow", l))[:3000]
+                raise Infra("TLC trace validation failed in %s (exit %s):\n%s\n%s" % (module, p.returncode, (r["violated"] or r["error"] or ""), errs + "\n...\n" + out[-1500:]))
+            ctx.states += r["distinct"]
+            ctx.transitions += r["states"]
+            rejects += parse_rejects(out)
+            ctx.unmodelled += len(re.findall(r'^<<\s*"UNMODELLED"', out, re.M))
+            shutil.rmtree(d, ignore_errors=True)
+        running = still
+        if time.time() > deadline:
+            killall()
             raise Infra("TLC trace validation timed out: " + module)
-        r = _tlc_summary(out)
-        if not r["ok"]:
-            raise Infra("TLC trace validation failed in %s:\n%s" % (module, (r["violated"] or r["error"] or "") + out[-2500:]))
-        ctx.states += r["distinct"]
-        ctx.transitions += r["states"]
-        for m in re.finditer(r'^<<\s*"REJECT",(.*?)>>\s*$', out, re.M | re.S):
-            pass
-        rejects += parse_rejects(out)
-        ctx.unmodelled += len(re.findall(r'^<<\s*"UNMODELLED"', out, re.M))
+        if running:
+            time.sleep(0.05)
     ctx.traces += total
     return rejects
 
